@@ -69,12 +69,22 @@ func init() {
 		"vpGuardedBy":  vpGuardedBy,
 		"vpUnguard":    func(e *Exec, _ *frame, _ *ssa.Function, a []Value) Value { e.guards = nil; return nil },
 		"vpLockEvents": vpLockEvents,
+		"vpOneCriticalSection": func(e *Exec, _ *frame, _ *ssa.Function, a []Value) Value {
+			n := len(e.lockLog)
+			ok := n == 2 && e.lockLog[0][1] == '+' && e.lockLog[1][1] == '-' && e.lockLog[0][0] == e.lockLog[1][0]
+			e.lockLog = nil
+			return e.c.Bool(ok)
+		},
 		"vpSelectFirst": func(e *Exec, _ *frame, _ *ssa.Function, a []Value) Value {
 			if b, _ := a[0].(*smt.Term).ConstBool(); b {
 				e.ext["select-first"] = true
 			} else {
 				delete(e.ext, "select-first")
 			}
+			return nil
+		},
+		"vpBlockedIsViolation": func(e *Exec, _ *frame, _ *ssa.Function, a []Value) Value {
+			e.ext["blocked-label"] = argStr(e, a[0])
 			return nil
 		},
 		"vpYield":       func(e *Exec, _ *frame, _ *ssa.Function, a []Value) Value { e.yield(); return nil },
